@@ -51,7 +51,7 @@ var decoders = map[string]func(b []byte) (err error, v util.Message, extra strin
 	"dhcp": func(b []byte) (error, util.Message, string) {
 		v := new(protocol.DHCP)
 		_, err := v.Write(b)
-		return err, nil, ""
+		return err, wrapRW(v), ""
 	},
 	"dhcpopts": func(b []byte) (error, util.Message, string) {
 		_, err := protocol.DHCPParseOptions(b)
@@ -60,22 +60,22 @@ var decoders = map[string]func(b []byte) (err error, v util.Message, extra strin
 	"lldp": func(b []byte) (error, util.Message, string) {
 		v := new(protocol.LLDP)
 		_, err := v.Write(b)
-		return err, nil, ""
+		return err, wrapRW(v), ""
 	},
 	"lldpchassis": func(b []byte) (error, util.Message, string) {
 		v := new(protocol.ChassisTLV)
 		_, err := v.Write(b)
-		return err, nil, ""
+		return err, wrapRW(v), ""
 	},
 	"lldpport": func(b []byte) (error, util.Message, string) {
 		v := new(protocol.PortTLV)
 		_, err := v.Write(b)
-		return err, nil, ""
+		return err, wrapRW(v), ""
 	},
 	"lldpttl": func(b []byte) (error, util.Message, string) {
 		v := new(protocol.TTLTLV)
 		_, err := v.Write(b)
-		return err, nil, ""
+		return err, wrapRW(v), ""
 	},
 	"parse": func(b []byte) (error, util.Message, string) {
 		m, err := of.Parse(b)
@@ -148,7 +148,7 @@ func workerMain() {
 							extra = "reencode-panic"
 						}
 					}()
-					chash = canonHash(v)
+					chash = canonHash(canonOf(v))
 					lenv = int(v.Len())
 					re, _ = v.MarshalBinary()
 					extra = fmt.Sprintf("%T", v)
